@@ -127,8 +127,9 @@ CHECKS = [
              '11-value alphabet in every length numeral, and every string of length <=3 (quick) / <=5 (thorough) over 8 '
              'symbols after a single-bit header for every configured bit: loads must return a dict or raise the '
              'library error, readers must stop or raise MciIpmDataError, and the watchdog must never fire; also with the '
-             'configuration entry of a flagged element removed / restored / retyped in place between decodes, and '
-             'through the command-line tools (diagnostic instead of traceback).',
+             'configuration entry of a flagged element removed / restored / retyped in place between decodes, with '
+             'every contiguous stretch of every variable-length content removed and the prefix re-declared (well '
+             'framed, unusual content), and through the command-line tools (diagnostic instead of traceback).',
      'note': 'Mutation depth above 2 (3 inside one numeral) is not explored; random byte strings are not sampled.'},
     {'id': 'C08', 'engine': 'E4-faults', 'level': 'fault_enumeration', 'design_ref': 'DESIGN.md 4/C08',
      'technique': 'exhaustive fault enumeration near the valid language judged by a re-tiling oracle and an independent '
